@@ -358,7 +358,7 @@ def matrix_cases():
         cases.append(dict(base_b, kw={}, ops=[o1, o2], kind="matrix2b"))
     for o in ops:
         cases.append(dict(base, kw={}, ops=[o], kind="matrix1"))
-    for kwk, kwv in [("n", 5), ("n", 0), ("s", " Ab "), ("s", ""), ("sub", {"a": 1}), ("sub", {"a": 100}), ("items", [{"n": 1}]),
+    for kwk, kwv in [("n", None), ("c", None), ("n", 5), ("n", 0), ("s", " Ab "), ("s", ""), ("sub", {"a": 1}), ("sub", {"a": 100}), ("items", [{"n": 1}]),
                      ("items", [{"n": 50}]), ("nokey", 1), ("c", {"x": [1]})]:
         cases.append(dict(base, kw={kwk: kwv}, ops=[((), ("validate", True))], kind="matrix-ctor"))
     return cases, ops, base
@@ -934,6 +934,16 @@ def oracle_for(prop, c, obs):
     fields = c["fields"]
     if prop in ("C01",):
         check_wf(fields, first, "", bad)
+    if prop == "C12" and c["kw"]:
+        data, defaults, dynf = first
+        for k, x in c["kw"].items():
+            nd = dict(fields).get(k)
+            if k in defaults:
+                bad.append("constructor keyword %s=%r was accepted but the field is reported as not user-defined" % (k, x))
+            if nd is not None and nd["t"] == "leaf":
+                exp = norm_leaf(c, (), k, x)
+                if exp is not NotImplemented and (data.get(k) != exp or type(data.get(k)) is not type(exp)):
+                    bad.append("constructor keyword %s=%r: the configuration holds %r, the normal form is %r" % (k, x, data.get(k), exp))
     if prop == "C12" and not c["kw"]:
         # fresh configuration: every key is marked default and holds the declared default
         def fresh(fs, snap, path):
@@ -1053,6 +1063,15 @@ def oracle_for(prop, c, obs):
             if out == "ok" and ((o[0] == "load" and o[2]) or (o[0] == "validate" and not o[1]) or o[0] == "loads"):
                 tf = node_at(fields, tsteps)
                 check_required(tf, get_cfg_snap(after, tsteps), st["tpath"] or "", bad, c["_built"].vt, c, tsteps)
+            if out == "ok" and o[0] in ("append", "insert", "setidx"):
+                # "items of configuration lists are held to the same rule when they are loaded or inserted"
+                tb = get_cfg_snap(before, tsteps)
+                ta = get_cfg_snap(after, tsteps)
+                nd = dict(node_at(fields, tsteps)).get(o[1])
+                old_items = [canon_snap(i) for i in (tb[0][o[1]].items if isinstance(tb[0].get(o[1]), Proxy) else [])]
+                for i, it in enumerate(ta[0][o[1]].items):
+                    if canon_snap(it) not in old_items:
+                        check_required(nd["fields"], it, "%s[%d]" % (pjoin(st["tpath"] or "", o[1]), i), bad, c["_built"].vt, c, tsteps)
             if o[0] == "validate" and o[1] and isinstance(out, tuple) and out[0] == "errs" and not out[1]:
                 tf = node_at(fields, tsteps)
                 check_required(tf, get_cfg_snap(after, tsteps), st["tpath"] or "", bad, c["_built"].vt, c, tsteps)
